@@ -21,12 +21,24 @@ void harness(void){
   CHECK(passes<=102, "k-means ran at most 102 passes (iteration cap 100)");
   CHECK(lab->size==2, "one label per object");
 #else
-  matrix *c,*o; NewMatrix(&c,2,1); NewMatrix(&o,2,1);
-  for(size_t i=0;i<2;i++){ c->data[i][0]=in_any_double(); o->data[i][0]=in_any_double(); }
+  matrix *c,*o; NewMatrix(&c,2,2); NewMatrix(&o,2,2);
+  for(size_t i=0;i<2;i++)for(size_t j=0;j<2;j++){ c->data[i][j]=in_any_double(); o->data[i][j]=in_any_double(); }
   size_t it=(size_t)lsv_i(), mx=(size_t)lsv_i();
   int r=shouldStop(c,o,it,mx);
   CHECK(!(it>mx) || r==1, "shouldStop stops once the iteration count exceeds the cap, whatever the centroids hold");
   CHECK(r==0 || r==1, "shouldStop returns a boolean");
+  /* below the cap the loop ends exactly when no centroid coordinate moved by more than the documented ABSOLUTE tolerance 1e-3
+   * (coordinates up to 1e9 in magnitude, so that one ulp is far below the tolerance; 0.1 % slack for the rounding of o +- 1e-3) */
+  { int small=1, finite=1, within=1, outside=0;
+    for(size_t i=0;i<2;i++)for(size_t j=0;j<2;j++){ double a=c->data[i][j], b=o->data[i][j];
+      if(!(a==a) || !(b==b)) finite=0;
+      if(!(a<=1e9 && a>=-1e9 && b<=1e9 && b>=-1e9)) small=0;
+      double d = a>b ? a-b : b-a;
+      if(!(d<=1.001e-3)) within=0;
+      if(d>=0.999e-3) outside=1; }
+    if(it<=mx && small && finite){
+      CHECK(r==0 || within, "k-means is declared converged only when every centroid coordinate moved by at most the documented tolerance 1e-3");
+      CHECK(r==1 || outside, "k-means keeps iterating only while some centroid coordinate moved by the tolerance or more"); } }
 #endif
   WITNESS();
 }
